@@ -131,3 +131,11 @@ Definition plain_decimal (s : list N) : bool :=
 Definition cfg_pinned : fmt_cfg := {| adds_zero := true; places := 6; strips := true; neg_zero_fix := false |}.
 Definition cfg_fixed (az : bool) : fmt_cfg := {| adds_zero := az; places := 6; strips := true; neg_zero_fix := true |}.
 Definition cfg_ok (c : fmt_cfg) : bool := (places c =? 6) && strips c && neg_zero_fix c.
+(** the pipeline without the '-0' repair is still right everywhere except on the carved-out inputs:
+    negative values whose magnitude rounds to 0 at six places (|x| <= 5e-7), printed as "-0"
+    (known defect #3 of the pinned tree; the repository's own test suite pins that output) *)
+Definition cfg_base_ok (c : fmt_cfg) : bool := (places c =? 6) && strips c.
+Definition sign_flag (c : fmt_cfg) (x : dyadic) : bool :=
+  if adds_zero c then dneg x && negb (dm x =? 0) else dneg x.
+Definition carved (c : fmt_cfg) (x : dyadic) : bool :=
+  negb (neg_zero_fix c) && sign_flag c x && (scaled6 x =? 0).
